@@ -6,13 +6,15 @@
            ops (sent by a client that does not read): [1 n] n PINGs  [2 n] n PING acks  [3 n] n SETTINGS
            [4 n sid] n DATA frames (1 byte) on the never-opened stream sid  [5 sid] request on new stream sid whose
            handler writes its response HEADERS and blocks  [6 sid] RST_STREAM for sid
+           [9] graceful shutdown: the server's CloseNotifyCh is closed -> goAway(NO_ERROR); later requests are ignored,
+               control frames keep being queued and counted
            [8 sid] WINDOW_UPDATE(sid, 2^31-1): overflows the window of an open stream (server resets it), ignored otherwise
            [7] (last) the client starts reading again, sends a marker PING and reports the control frames it receives
                (skipped when closed or when `limit` frames are queued: the marker itself would cross the limit);
                it waits until the blocked handlers' HEADERS frames have arrived too and is followed by one more sample
    output: first sample, then per op a sample [queued zeroLen streamFrames closed] taken on the serve goroutine after a
            SETTINGS barrier (streamFrames = -1 once closed), or for [7]: [7 [tag ...]] (PING ack = id, RST_STREAM = -sid,
-           small connection WINDOW_UPDATE = 0, marker = 999999999; SETTINGS acks are not reported: whether the ack
+           small connection WINDOW_UPDATE = 0, GOAWAY = -2000000000, marker = 999999999; SETTINGS acks are not reported: whether the ack
            of the client's very first SETTINGS is written before the writer blocks is a race). *)
 From Coq Require Import List ZArith Bool.
 From Bfe Require Import lib.Val model.H2Ctl.
@@ -33,14 +35,14 @@ Definition barrier (limit : Z) (c : conn) : conn := iteration limit c ESettings.
 (* the client reads again: marker PING, then the writer completes frame after frame *)
 Definition drain (limit : Z) (c : conn) : conn :=
   let c1 := iteration limit c (EPing MARKER) in
-  let c0 := mkC (zero c1) (sq c1) (queued c1) (writing c1) (needs_flush c1) (need_ack c1) (closed c1) [] in
+  let c0 := mkC (zero c1) (sq c1) (queued c1) (writing c1) (needs_flush c1) (need_ack c1) (closed c1) [] (in_goaway c1) (need_goaway c1) (max_sid c1) in
   fold_left (fun s _ => iteration limit s EWrote)
-            (repeat tt (length (zero c0) + Z.to_nat (sq_total (sq c0)) + 4)) c0.
+            (repeat tt (length (zero c0) + Z.to_nat (sq_total (sq c0)) + 6)) c0.
 
 (* decoded client operations *)
 Inductive cop :=
 | CFlood (kind n sid : Z)     (* kind 1 PING, 2 PING ack, 3 SETTINGS, 4 DATA on unknown stream sid *)
-| COpen (sid : Z) | CRst (sid : Z) | COverflow (sid : Z) | CDrain.
+| COpen (sid : Z) | CRst (sid : Z) | COverflow (sid : Z) | CGoAway | CDrain.
 
 Definition dec_cop (v : val) : option cop :=
   match v with
@@ -51,6 +53,7 @@ Definition dec_cop (v : val) : option cop :=
   | VL [VZ 5; VZ sid] => Some (COpen sid)
   | VL [VZ 6; VZ sid] => Some (CRst sid)
   | VL [VZ 8; VZ sid] => Some (COverflow sid)
+  | VL [VZ 9] => Some CGoAway
   | VL [VZ 7] => Some CDrain
   | _ => None
   end.
@@ -61,7 +64,10 @@ Definition flood_event (kind sid : Z) (id : Z) : event :=
 Definition apply_cop (limit : Z) (o : cop) (st : conn * Z) : conn * Z :=
   match o with
   | CFlood kind n sid => rep_events limit n (flood_event kind sid) st
-  | COpen sid => (iteration limit (iteration limit (fst st) ENop) (EHandlerFrame sid 1), snd st)
+  | COpen sid =>                                  (* processHeaders ignores new streams once inGoAway *)
+    if in_goaway (fst st) then (iteration limit (fst st) (EHeaders sid), snd st)
+    else (iteration limit (iteration limit (fst st) (EHeaders sid)) (EHandlerFrame sid 1), snd st)
+  | CGoAway => (iteration limit (fst st) EGoAway, snd st)
   | CRst sid => (iteration limit (fst st) (ERstStream sid), snd st)
   | COverflow sid => (iteration limit (fst st) (EWindowOverflow sid), snd st)
   | CDrain => st
